@@ -67,14 +67,14 @@ def make_morton(name, consts, N="2"):
     fns.append(Fn("morton_at", MORTON, ["struct morton", "struct non_owning_data_t"], "at",
                   ret="OUT_VEC_PTR_T", ptypes=["IN_VEC_T"], vec_types=["IN_VEC_T"],
                   method="const MORTON_SELF_T *self", members=["m_sizes"], arrays=["m_sizes"],
-                  subst=COMMON_SUBST + [("m_storage.at(", "backend_at(", 0), ("calculate_index(", "morton_calculate_index(", 0)]))
-    expr_subst = [("utility::ipow", "ipow", 1), ("utility::round_pow2", "round_pow2", 1), MAXEL] + COMMON_SUBST
-    fns.append(Fn("morton_alloc_size_copy", MORTON, ["struct morton"], "make_morton_copy", kind="expr",
-                  expr_rx=r"utility::ipow\s*\(", ret="size_t", ptypes=["ND_SIZE_T"], pnames=["sizes"],
+                  subst=[("configuration_t", "ND_SIZE_T", 0)] + COMMON_SUBST + [("m_storage.at(", "backend_at(", 0), ("calculate_index(", "morton_calculate_index(", 0)]))
+    expr_subst = [("utility::ipow", "ipow", 0), ("utility::round_pow2", "round_pow2", 0), ("configuration_t", "ND_SIZE_T", 0), ("calculate_index(", "morton_calculate_index(", 0)] + COMMON_SUBST
+    fns.append(Fn("morton_alloc_size_copy", MORTON, ["struct morton"], "make_morton_copy", kind="arg",
+                  expr_rx=r"std::make_unique\s*<[^;]*?>\s*(?=\()", ret="size_t", ptypes=["ND_SIZE_T"], pnames=["sizes"], vec_types=["ND_SIZE_T"],
                   subst=expr_subst))
-    fns.append(Fn("morton_alloc_size_ctor", MORTON, ["struct morton", "struct owning_data_t"], "owning_data_t", kind="expr",
+    fns.append(Fn("morton_alloc_size_ctor", MORTON, ["struct morton", "struct owning_data_t"], "owning_data_t", kind="arg",
                   params_hint=r"const\s+T\s*&", expr_in_header=True,
-                  expr_rx=r"utility::ipow\s*\(", ret="size_t", ptypes=["ND_SIZE_T"], pnames=["m_sizes"],
+                  expr_rx=r"\bm_storage\s*(?=\()", ret="size_t", ptypes=["ND_SIZE_T"], pnames=["m_sizes"], vec_types=["ND_SIZE_T"],
                   subst=expr_subst))
     return Unit(name, fns, "contracts/morton.h", "lemmas/morton.c",
                 stubs=["stubs/backend.h"],
@@ -92,15 +92,16 @@ def make_strided(name, consts):
     fns.append(Fn("strided_at", STRIDED, ["struct strided", "struct non_owning_data_t"], "at",
                   ret="OUT_VEC_PTR_T", ptypes=["IN_VEC_T"], vec_types=["IN_VEC_T"],
                   method="const STRIDED_SELF_T *self", members=["m_sizes"], arrays=["m_sizes"],
-                  subst=COMMON_SUBST + [(r"m_storage\s*\.\s*at\s*\(\s*\{\s*(\w+)\s*\}\s*\)", r"backend_at(\1)", 1, True)]))
-    fns.append(Fn("strided_alloc_size_copy", STRIDED, ["struct strided"], "make_strided_copy", kind="expr",
-                  expr_rx=r"std::accumulate\s*\(", ret="size_t", ptypes=["ND_SIZE_T"], pnames=["sizes"], subst=[ACCUM]))
-    fns.append(Fn("strided_alloc_size_ctor", STRIDED, ["struct strided", "struct owning_data_t"], "owning_data_t", kind="expr",
+                  subst=[("configuration_t", "ND_SIZE_T", 0)] + COMMON_SUBST + [(r"m_storage\s*\.\s*at\s*\(\s*\{\s*(\w+)\s*\}\s*\)", r"backend_at(\1)", 0, True)]))
+    ssub = [("configuration_t", "ND_SIZE_T", 0)] + COMMON_SUBST
+    fns.append(Fn("strided_alloc_size_copy", STRIDED, ["struct strided"], "make_strided_copy", kind="arg",
+                  expr_rx=r"std::make_unique\s*<[^;]*?>\s*(?=\()", ret="size_t", ptypes=["ND_SIZE_T"], pnames=["sizes"], vec_types=["ND_SIZE_T"], subst=ssub))
+    fns.append(Fn("strided_alloc_size_ctor", STRIDED, ["struct strided", "struct owning_data_t"], "owning_data_t", kind="arg",
                   params_hint=r"const\s+T\s*&", expr_in_header=True,
-                  expr_rx=r"std::accumulate\s*\(", ret="size_t", ptypes=["ND_SIZE_T"], pnames=["m_sizes"], subst=[ACCUM]))
-    fns.append(Fn("strided_alloc_size_conf", STRIDED, ["struct strided", "struct owning_data_t"], "owning_data_t", kind="expr",
+                  expr_rx=r"\bm_storage\s*(?=\()", ret="size_t", ptypes=["ND_SIZE_T"], pnames=["m_sizes"], vec_types=["ND_SIZE_T"], subst=ssub))
+    fns.append(Fn("strided_alloc_size_conf", STRIDED, ["struct strided", "struct owning_data_t"], "owning_data_t", kind="arg",
                   params_hint=r"configuration_t\s+conf", expr_in_header=True,
-                  expr_rx=r"std::accumulate\s*\(", ret="size_t", ptypes=["ND_SIZE_T"], pnames=["m_sizes"], subst=[ACCUM]))
+                  expr_rx=r"\bm_storage\s*(?=\()", ret="size_t", ptypes=["ND_SIZE_T"], pnames=["m_sizes"], vec_types=["ND_SIZE_T"], subst=ssub))
     return Unit(name, fns, "contracts/strided.h", "lemmas/strided.c",
                 stubs=["stubs/backend.h"], pre_includes=["stubs/algorithm.h"])
 
@@ -124,12 +125,12 @@ def make_hilbert(name, consts):
                   ret="OUT_VEC_PTR_T", ptypes=["IN_VEC_T"], vec_types=["IN_VEC_T"],
                   method="const HILBERT_SELF_T *self", members=["m_sizes"], arrays=["m_sizes"],
                   subst=HILBERT_SUBST + [("m_storage.at(", "backend_at(", 0), ("calculate_index(", "hilbert_calculate_index(", 0)]))
-    expr_subst = [("utility::ipow", "ipow", 1), ("utility::round_pow2", "round_pow2", 1), MAXEL] + COMMON_SUBST
-    fns.append(Fn("hilbert_alloc_size_copy", HILBERT, ["struct hilbert"], "make_hilbert_copy", kind="expr",
-                  expr_rx=r"utility::ipow\s*\(", ret="size_t", ptypes=["ND_SIZE_T"], pnames=["sizes"], subst=expr_subst))
-    fns.append(Fn("hilbert_alloc_size_ctor", HILBERT, ["struct hilbert", "struct owning_data_t"], "owning_data_t", kind="expr",
+    expr_subst = [("utility::ipow", "ipow", 0), ("utility::round_pow2", "round_pow2", 0), ("configuration_t", "ND_SIZE_T", 0)] + COMMON_SUBST
+    fns.append(Fn("hilbert_alloc_size_copy", HILBERT, ["struct hilbert"], "make_hilbert_copy", kind="arg",
+                  expr_rx=r"std::make_unique\s*<[^;]*?>\s*(?=\()", ret="size_t", ptypes=["ND_SIZE_T"], pnames=["sizes"], vec_types=["ND_SIZE_T"], subst=expr_subst))
+    fns.append(Fn("hilbert_alloc_size_ctor", HILBERT, ["struct hilbert", "struct owning_data_t"], "owning_data_t", kind="arg",
                   params_hint=r"const\s+T\s*&", expr_in_header=True,
-                  expr_rx=r"utility::ipow\s*\(", ret="size_t", ptypes=["ND_SIZE_T"], pnames=["m_sizes"], subst=expr_subst))
+                  expr_rx=r"\bm_storage\s*(?=\()", ret="size_t", ptypes=["ND_SIZE_T"], pnames=["m_sizes"], vec_types=["ND_SIZE_T"], subst=expr_subst))
     return Unit(name, fns, "contracts/hilbert.h", "lemmas/hilbert.c",
                 stubs=["stubs/backend.h"],
                 pre_includes=["stubs/numeric_size_t.h", "contracts/numeric.h", "stubs/algorithm.h"])
